@@ -1,0 +1,33 @@
+//go:build verif
+
+package pubsub_controller
+
+import (
+	"context"
+
+	"github.com/aperturerobotics/bifrost/link"
+	"github.com/aperturerobotics/bifrost/protocol"
+	"github.com/aperturerobotics/bifrost/pubsub"
+	"github.com/sirupsen/logrus"
+)
+
+// VerifTrackLink runs trackLink for lnk on a controller whose PubSub is ps.
+// Only built with the "verif" tag; used by the verification harness to observe
+// which side of a link opens the pubsub stream.
+func VerifTrackLink(
+	ctx context.Context,
+	le *logrus.Entry,
+	protocolID protocol.ID,
+	ps pubsub.PubSub,
+	lnk link.MountedLink,
+) error {
+	c := NewController(le, nil, nil, "", protocolID, nil)
+	c.pubSubCtr.SetValue(&ps)
+	t := &trackedLink{
+		c:   c,
+		tpl: pubsub.NewPeerLinkTuple(lnk),
+		lnk: lnk,
+		le:  le,
+	}
+	return t.trackLink(ctx)
+}
